@@ -24,3 +24,7 @@ def check(ctx, rep):
     W.rule_M11(m, rep)
     S.rule_A1(ctx, rep)
     S.rule_A2_A3(ctx, rep)
+    # every metric a buffered sink accepts goes through the line writer, whole: the sink's own emit has no side door to the
+    # socket (a contention fast path that sends the metric directly would put an unterminated metric that fits on the wire alone)
+    from .common import KeepOnly
+    S.rule_lock_discipline(ctx, KeepOnly(rep, ('/one-writer-call', '/whole-metric', '/writer-from-guard'), 'D1w'), 'D1w', methods=('emit',))
